@@ -120,7 +120,7 @@ var (
 func runC04(c c04Case, o *vfutil.Obs) *vfutil.Failure {
 	c04NATSOnce.Do(func() { c04NS = vfStartNATS() })
 	dir, _ := os.MkdirTemp(scratchRoot(), "c04")
-	defer os.RemoveAll(dir)
+	_ = dir // stays until the driver removes the shard scratch space (stragglers may still write)
 	c04Seq++
 	s, err := vfL1(dir, "a", c04NS, func(cfg *Config) {
 		cfg.Clustering.Namespace = fmt.Sprintf("c04n%d", c04Seq)
